@@ -101,3 +101,54 @@ func VerifC10_DamagedFragmentedTail() {
 	vsym.Assert(gerr == nil && vsym.EqBytes(got, va), "an entry recovered at the first open is gone at the second")
 	vsym.Reach("done")
 }
+
+// VerifC10_FlipHeaderOfFragment: one byte of the 7-byte record header (checksum, length, type) of the FIRST, MIDDLE
+// or LAST record of a fragmented entry (a 33 KB value) is replaced by a symbolic different value. Opening succeeds and
+// does not panic; the small entry written before the fragmented one is recovered; the fragmented entry is either
+// recovered exactly as written or absent; nothing that was never written appears.
+func VerifC10_FlipHeaderOfFragment() {
+	cfg := config.NewDefaultConfig(vsym.Dir())
+	m, err := NewManager(cfg, stats.NewAtomicCollector())
+	vsym.Assert(err == nil, "NewManager failed")
+	ka, kb := []byte{'a'}, []byte{'b'}
+	va := vsym.Bytes("va", 1)
+	vb := c10Big("vb", 33000)
+	vsym.Assert(m.Put(ka, va) == nil && m.Put(kb, vb) == nil, "Put failed")
+	vsym.Assert(m.Close() == nil, "Close failed")
+	files, _ := wal.FindWALFiles(cfg.WALDir)
+	vsym.Assert(len(files) == 1, "expected one log file")
+	data, err := os.ReadFile(files[0])
+	vsym.Assert(err == nil, "ReadFile failed")
+	h := wal.HeaderSize
+	b1 := h + 1 + 8 + 4 + 1 + 4 + 1
+	b2 := b1 + h + 13 + 1
+	b3 := b2 + h + wal.MaxRecordSize
+	vsym.Assert(b3 < len(data), "log layout differs from the harness' bookkeeping")
+	starts := []int{b1, b2, b3}
+	hb := vsym.IntRange("headerByte", 0, h-1)
+	pos := starts[vsym.IntRange("fragment", 0, 2)] + hb
+	nb := vsym.Byte("nb")
+	vsym.Assume(nb != data[pos])
+	if !vsym.Thorough() && (hb == 4 || hb == 5) {
+		// every value of a length byte is its own read size: four representatives in the quick tier
+		old := data[pos]
+		vsym.Assume(nb == 0 || nb == old+1 || nb == old-1 || nb == 0xff)
+	}
+	data[pos] = nb
+	vsym.Assert(os.WriteFile(files[0], data, 0644) == nil, "rewrite failed")
+	m2, err := NewManager(cfg, stats.NewAtomicCollector())
+	vsym.Assert(err == nil, "opening a database with one altered byte in a record header of its log failed")
+	if err != nil {
+		return
+	}
+	got, gerr := m2.Get(ka)
+	vsym.Assert(gerr == nil && vsym.EqBytes(got, va), "the entry written before the damaged one was not recovered")
+	got, gerr = m2.Get(kb)
+	if gerr == nil {
+		vsym.Assert(len(got) == len(vb) && vsym.EqBytes(got, vb), "a fragmented entry was recovered with bytes that were never written")
+	}
+	// the log directory still holds the log (recovery must not set the undamaged prefix aside and start empty)
+	after, _ := wal.FindWALFiles(cfg.WALDir)
+	vsym.Assert(len(after) >= 1, "the log files are gone after opening")
+	vsym.Reach("done")
+}
